@@ -40,6 +40,7 @@ struct FnDir {
     nopub: bool,
     hoist: Option<usize>,
     sig: Option<String>,
+    inline_then: Vec<usize>,
     substs: Vec<(String, String)>,
     spec: String,
     closures: HashMap<usize, String>,
@@ -187,6 +188,7 @@ fn parse_template(path: &Path, nodes: &mut Vec<Node>) {
                         "nopub" => d.nopub = true,
                         "hoist" => d.hoist = Some(rest.parse().unwrap_or_else(|_| die(&format!("{sctx}: @@hoist needs closure ordinal")))),
                         "sig" => d.sig = Some(rest),
+                        "inline_then" => d.inline_then.push(rest.parse().unwrap_or_else(|_| die(&format!("{sctx}: @@inline_then needs closure ordinal")))),
                         "from" => d.from = Some(rest),
                         "to" => d.to = Some(rest),
                         "subst" => d.substs.push(parse_subst(&rest, &sctx)),
@@ -306,6 +308,7 @@ struct Ed<'a> {
     loop_idx: usize,
     awaits: usize,
     closures_used: Vec<usize>,
+    inline_then_used: Vec<usize>,
     loops_used: Vec<usize>,
     befores_used: Vec<bool>,
     macros_used: Vec<bool>,
@@ -328,6 +331,7 @@ impl<'a> Ed<'a> {
             loop_idx: 0,
             awaits: 0,
             closures_used: vec![],
+            inline_then_used: vec![],
             loops_used: vec![],
             befores_used: vec![false; dir.befores.len()],
             macros_used: vec![false; dir.macros.len()],
@@ -501,6 +505,25 @@ impl<'a, 'ast> Visit<'ast> for Ed<'a> {
         visit::visit_expr_assign(self, e);
     }
     fn visit_expr_method_call(&mut self, e: &'ast syn::ExprMethodCall) {
+        // E15: `cond.then(|| body)` with a closure that captures `&mut` state (rejected by Verus) is
+        // replaced by the std definition of `bool::then`: `if cond { Some(body) } else { None }`
+        if e.method == "then" && e.args.len() == 1 {
+            if let syn::Expr::Closure(c) = &e.args[0] {
+                if c.inputs.is_empty() && self.dir.inline_then.contains(&self.closure_idx) {
+                    self.inline_then_used.push(self.closure_idx);
+                    self.closure_idx += 1; // the closure literal disappears but keeps its ordinal
+                    let rs = e.receiver.span().byte_range();
+                    let bs = c.body.span().byte_range();
+                    let es = e.span().byte_range();
+                    self.push(rs.start, rs.start, "if ", "E15-then-inlined", false);
+                    self.push(rs.end, bs.start, " { Some(", "E15-then-inlined", true);
+                    self.push(bs.end, es.end, ") } else { None }", "E15-then-inlined", true);
+                    self.visit_expr(&e.receiver);
+                    self.visit_expr(&c.body);
+                    return;
+                }
+            }
+        }
         // E14: a std datatype constructor used as a function value (`.map_ok(Some)`) is
         // eta-expanded (`.map_ok(|vx_e| Some(vx_e))`): Verus has no constructor function values
         for a in &e.args {
@@ -1224,6 +1247,11 @@ fn check_used(ed: &Ed, d: &FnDir, ctx: &str) {
     for k in d.closures.keys() {
         if !ed.closures_used.contains(k) {
             die(&format!("{ctx}: closure#{k} does not exist any more ({} closures found)", ed.closure_idx));
+        }
+    }
+    for k in &d.inline_then {
+        if !ed.inline_then_used.contains(k) {
+            die(&format!("{ctx}: @@inline_then {k}: closure#{k} is not the argument of a `.then(|| ..)` call any more"));
         }
     }
     for k in d.loops.keys() {
